@@ -232,6 +232,44 @@ def hashMethods (nh : Nat → UInt32) (acc : UInt32) : List Method → UInt32
                         + 5 * hashTuple nh (9137 + 2 * UInt32.ofNat rs.length) rs) ms
 end
 
+/-! ## the representation invariant of completed interfaces
+
+`Complete` computes `allMethods` as the sorted union of the explicit methods and the method sets of
+the embedded interfaces; method names are unique in a method set.  Hence the explicit methods are
+exactly the members of `all` that are not inherited.  `env i` = the ids (`types.Id`) of the complete
+method set of the named interface `i`.  `mkIface_wf` (Proofs) shows that `mkIface` establishes it. -/
+
+def inheritedIds (env : Nat → List String) (emb : List Nat) : List String := emb.flatMap env
+
+mutual
+def WF (env : Nat → List String) : Ty → Prop
+  | .basic _ => True
+  | .array _ e => WF env e
+  | .slice e => WF env e
+  | .struct fs => WFFs env fs
+  | .pointer e => WF env e
+  | .tuple ts => WFL env ts
+  | .sig _ r ps rs => WFO env r ∧ WFL env ps ∧ WFL env rs
+  | .iface all expl emb =>
+      expl = all.filter (fun m => !(inheritedIds env emb).contains m.id) ∧ WFMs env all
+  | .map k e => WF env k ∧ WF env e
+  | .chan _ e => WF env e
+  | .named _ => True
+  | .nil => True
+def WFO (env : Nat → List String) : Option Ty → Prop
+  | none => True
+  | some t => WF env t
+def WFL (env : Nat → List String) : List Ty → Prop
+  | [] => True
+  | t :: ts => WF env t ∧ WFL env ts
+def WFFs (env : Nat → List String) : List Field → Prop
+  | [] => True
+  | .mk _ _ _ _ t :: fs => WF env t ∧ WFFs env fs
+def WFMs (env : Nat → List String) : List Method → Prop
+  | [] => True
+  | .mk _ _ _ _ ps rs :: ms => WFL env ps ∧ WFL env rs ∧ WFMs env ms
+end
+
 /-! ## construction of interfaces: `types.NewInterface` + `Interface.Complete` -/
 
 /-- ordered insertion by key (what `sort.Sort` / `sort.Stable` return for distinct keys) -/
